@@ -188,6 +188,8 @@ class P:
                 fault = {"kind": "fail", "pos": rng.randrange(0, total)}
             fault["offsets"] = rng.random() < 0.3
             mode = rng.choice(["one", "bytewise", "random", "random", "borders"])
+            if mode == "bytewise" and any(len(m) > 4000 for _, _, m in recs):
+                mode = "random"          # a 16 KiB message read byte by byte is 16000 read events: kept to a dozen fragments
             cases.append(self.build(rng, recs, fault, mode))
         if tier == "thorough":
             # every truncation point and every failure point of 12 streams
